@@ -92,8 +92,10 @@ Print Assumptions C03_scope_model_implies_spec.
 
 (* ---------------------------------------------------------------------------------------------------------------
    Core 3 — closures at run time (partial).
-   Mini language of nested definitions (Interp/Closure.v): assignments, reads, +, tr(), conditional expressions, calls,
-   return, def with global/nonlocal header.  One evaluator skeleton, two scoping policies: pyscript's layout
+   Mini language of nested definitions (Interp/Closure.v): assignments, reads, +, tr(), conditional expressions, calls
+   (also of the builtins abs/max/min: the fourth scope of LEGB), return, def with global/nonlocal header, and compound
+   statements whose body runs once in place (if / while / for / try-finally / except handler / try-else), through which the
+   static pre-pass (get_names_set, check_for_closure) has to look.  One evaluator skeleton, two scoping policies: pyscript's layout
    (resolve_nonlocals searching the run-time symbol-table stack for EvalLocalVar cells at `def` time, EvalFunc.call sharing
    captured cells and creating own cells at call time, ast_name / recurse_assign lookup order) against flat lexical closures
    with static name classification.
@@ -106,7 +108,7 @@ Print Assumptions C03_scope_model_implies_spec.
    stop with an anomaly; the strict run stops exactly at the events where the layouts part: a cell found only further up
    the call stack (D300), a captured cell still unassigned when the inner function is called (D301), var_names differing
    from the free variables on a visible name (D38b, and the harmless extra capture of a variable named like a nested
-   function's parameter), the two static analyses or internal consistency checks failing (never observed).
+   function's parameter), a name declared global that only the builtins define (D302), an unassigned plain local named like a builtin (D303), the two static analyses or internal consistency checks failing (never observed).
    MISSING for the full statement: (1) that the syntactic fragment implies "no anomaly" (a store invariant: every cell
    reachable from a closure is assigned when the closure is called); (2) that the strict run equals the loose run, which
    is what mirrors the code when no event occurs; (3) an equivalence up to unused captured cells.  (2) is evaluated on
@@ -140,6 +142,16 @@ Theorem C03_closure_refuted_D301 :
   observe (ps_run sdev_off false 50 prog_D301) <> observe (py_run 50 prog_D301) /\ ps_run sdev_off true 50 prog_D301 = Anomaly 2.
 Proof. exact closure_refuted_D301. Qed.
 Print Assumptions C03_closure_refuted_D301.
+
+Theorem C03_closure_refuted_D302 :
+  observe (ps_run sdev_off false 50 prog_D302) <> observe (py_run 50 prog_D302) /\ ps_run sdev_off true 50 prog_D302 = Anomaly 4.
+Proof. exact closure_refuted_D302. Qed.
+Print Assumptions C03_closure_refuted_D302.
+
+Theorem C03_closure_refuted_D303 :
+  observe (ps_run sdev_off false 50 prog_D303) <> observe (py_run 50 prog_D303) /\ ps_run sdev_off true 50 prog_D303 = Anomaly 5.
+Proof. exact closure_refuted_D303. Qed.
+Print Assumptions C03_closure_refuted_D303.
 
 (* ---------------------------------------------------------------------------------------------------------------
    NOT modelled: defaults/decorators evaluated once, user decorators, classes and bound methods, native compilation
